@@ -1,0 +1,28 @@
+//go:build verif
+
+package apk
+
+import "net/http"
+
+// Wrappers for the C19 verification harness (build tag "verif" only); no logic.
+
+// VerifC19Flight wraps the unexported generic flightCache, instantiated at string.
+type VerifC19Flight struct{ f *flightCache[string] }
+
+// VerifC19NewFlight exposes newFlightCache[string].
+func VerifC19NewFlight() *VerifC19Flight { return &VerifC19Flight{f: newFlightCache[string]()} }
+
+// Do exposes (*flightCache[string]).Do.
+func (v *VerifC19Flight) Do(key string, fn func() (string, error)) (string, error) {
+	return v.f.Do(key, fn)
+}
+
+// VerifC19DiscoverKeysDo exposes the key-discovery flight cache of a shared Cache.
+func VerifC19DiscoverKeysDo(c *Cache, key string, fn func() ([]Key, error)) ([]Key, error) {
+	return c.discoverKeys.Do(key, fn)
+}
+
+// VerifC19CacheClient exposes (*cache).client: the caching transport over an arbitrary wrapped client.
+func VerifC19CacheClient(dir string, offline bool, shared *Cache, wrapped *http.Client, etagRequired bool) *http.Client {
+	return (&cache{dir: dir, offline: offline, shared: shared}).client(wrapped, etagRequired)
+}
